@@ -1,10 +1,52 @@
-"""property -> units whose functions carry it (functions are tagged with props=[...] in the unit recipes)"""
+"""property -> units whose functions carry it.  A function counts for a property when the property id is in its
+`props` tag (unit recipes / contracts/*.spec), or when the unit is listed under `all` for the property."""
 import os, sys
 sys.path.insert(0, os.path.dirname(os.path.dirname(os.path.abspath(__file__))))
+from obligations import static_facts as SF
+
+L_PATH = '[L-path] the state stack is a path of the LR automaton (a state with a complete item of length n has n predecessors whose bottom has a goto on the left side; success is reached with the root value on the stack): assumed at the call sites of reduce/success, not mechanised'
+L_IDS = 'ghost id counter does not wrap: fewer than 2^32-16 semantic values are created in one parse'
+TABLE_WF = 'parse_table/grammar_info well-formedness (args in range, eof never shifted, shift_error_recovery_token only in the error column) is a precondition of the driver; it is what state_analyzer::transitions writes'
+LEXER = 'the lexer is represented by its contract inside the driver proofs (default result, or index < sizeof...(Terms) and 1 <= len <= remaining); dfa_match meets it only for automata none of whose terms matches the empty string'
+R13 = 'semantic values are ghost identifiers (R13): std::variant/optional/tuple, the functors and reduce_value_impl are outside the verified text'
+
+# obligations that belong to particular properties only (not counted, pass or fail, for the others)
+OWNED = {r'stack/capacity:': ['C06', 'C12']}
 
 PROPS = {
+    'C02': dict(units=['driver', 'stdex'],
+                claim='driver-level half of bottom-up evaluation: which rule functor is invoked, with which stack slice, in which order, once; shift applies the term functor of the shifted term to the pending lexeme; success returns the bottom value',
+                assumptions=[L_PATH, L_IDS, TABLE_WF, R13, 'that the popped slice is the handle of the unique derivation is the LR(1) theorem (C01), not mechanised']),
+    'C04': dict(units=['driver', 'utils'],
+                claim='whitespace skipping is exactly the documented sets; the lexer is asked once at the skipped position with the whole rest of the buffer; the lexeme is exactly [current_it, current_it+len); a failure result yields one Unexpected character report',
+                assumptions=[LEXER, 'longest match/first-listed priority of the automaton itself: unit dfa (dfa_match/run); the union automaton built by merging is not verified (finding D10)']),
+    'C06': dict(units=['driver', 'stdex', 'utils'], all=['driver', 'stdex'],
+                claim='every CBMC safety check (bounds, pointer validity/overflow, signed/unsigned overflow, division) plus the logical bounds woven by R9/R7 on every parse-path function under its precondition; recovery pops and input discarding strictly progress',
+                assumptions=[L_PATH, L_IDS, TABLE_WF, LEXER, 'termination of a run of reductions that consume nothing (no reduce cycle in a conflict-free table) is not mechanised',
+                             'std::vector / std::string stacks and buffers are trusted; the proof is for the cvector stacks']),
+    'C08': dict(units=['driver'],
+                claim='step relation of the driver loop written from the documented recovery algorithm: enter (one message, nothing discarded), pop (one state and its value), shift of the error symbol, input discarding, exits',
+                assumptions=[L_PATH, L_IDS, TABLE_WF, LEXER]),
+    'C09': dict(units=['driver'],
+                claim='without error rules and not verbose: no event before the failure, exactly one (Unexpected character | Syntax error) on failure with position and payload, none on success',
+                assumptions=[L_PATH, TABLE_WF, LEXER, 'that the term reported is the first that cannot continue a valid prefix is the immediate-error-detection property of canonical LR(1) tables (C01), not mechanised']),
+    'C10': dict(units=['driver'],
+                claim="source_point::update follows the statement's rule byte by byte; every advance of the parse position is paired with an update over exactly that range; values and messages carry the source point of the pending term's first byte",
+                assumptions=['line/column counters below 2^30 (cannot be reached with buffers <= 4096 bytes; the counters are 32-bit)', LEXER]),
+    'C14': dict(units=['driver', 'stdex'],
+                claim='driver-level linearity of value identifiers: ids on the stack are pairwise distinct, reduce erases exactly the slice it passed, pop_stacks discards, success returns the bottom; nothing reads an erased slot',
+                assumptions=[L_PATH, L_IDS, R13, 'rvalue passing, move-only types, moved-from reads inside reduce_value_impl and exactly-once destruction are C++ object semantics outside the verified text']),
+    'C15': dict(units=['driver'], all=['driver'], static=[SF.c15_static],
+                claim='frame: no parse-path function writes parse_table, gi, state_count, names or any other parser member (assigns clauses contain only parse-local state); static scan: no mutable/const_cast/function-local static, parse members const',
+                assumptions=['data-race freedom follows from read-only sharing; no schedule is explored', R13]),
+    'C16': dict(units=['driver'], all=['driver'], static=[SF.c16_static],
+                claim='every contract states the same state change for verbose on and off (verbose only adds events); trace payloads (Shift to, Reduced using rule, Go to, Recognized) equal the action performed',
+                assumptions=['stream type: both no_stream and std::ostream lower to the ghost event sink (R10); text formatting is not verified', LEXER]),
     'C17': dict(units=['utils'],
-                claim='regex_lexer scanner stays inside the pattern array and rejects lexical malformations; find_str never returns a wrong or uninitialized index',
+                claim='find_str never returns a wrong or uninitialized index; string helpers stay inside their arguments',
                 assumptions=['patterns are NUL-terminated arrays (cstring_buffer keeps the terminator at end())',
                              'grammar-level rejections (unbalanced group, leading quantifier, empty alternative, {}) rest on C01 applied to the regex grammar: not mechanised']),
+    'C18': dict(units=['driver'],
+                claim='get_current_term under the weakest custom-lexer contract: asked once per needed term after the same whitespace skipping, index used unchanged, exactly len bytes pending, default result => Unexpected character',
+                assumptions=[LEXER, 'custom_term value typing is C++ template machinery outside the verified text']),
 }
